@@ -32,6 +32,8 @@ pub enum Cmd {
     DelAll,
     ListBp,
     LoadInput(String),
+    /// load_grammar_direct with the main (false) or the alternative (true) grammar of the workload
+    LoadGrammar(bool),
     /// start (or restart) a run; `drain`: try_recv until empty first even if nothing is buffered
     Run { rule: String, cap: usize, drain: bool },
     Cont,
@@ -52,6 +54,7 @@ impl Cmd {
             Cmd::DelAll => json!(["del_all"]),
             Cmd::ListBp => json!(["list_bp"]),
             Cmd::LoadInput(s) => json!(["load_input", s]),
+            Cmd::LoadGrammar(alt) => json!(["load_grammar", alt]),
             Cmd::Run { rule, cap, drain } => json!(["run", rule, cap, drain]),
             Cmd::Cont => json!(["cont"]),
             Cmd::Recv => json!(["recv"]),
@@ -71,6 +74,7 @@ impl Cmd {
             "del_all" => Cmd::DelAll,
             "list_bp" => Cmd::ListBp,
             "load_input" => Cmd::LoadInput(s(1)?),
+            "load_grammar" => Cmd::LoadGrammar(a.get(1)?.as_bool()?),
             "run" => Cmd::Run {
                 rule: s(1)?,
                 cap: n(2)? as usize,
@@ -91,6 +95,8 @@ pub struct Workload {
     pub grammar_text: String,
     /// AST of a generated grammar (None for fixed grammars); only used for shrinking
     pub grammar_ast: Option<Grammar>,
+    /// a second grammar that `LoadGrammar(true)` switches to between runs
+    pub alt_grammar_text: Option<String>,
     pub input: String,
     pub script: Vec<Cmd>,
     pub personality: &'static str,
@@ -103,6 +109,7 @@ impl Workload {
     pub fn to_json(&self) -> Value {
         json!({
             "grammar": self.grammar_text,
+            "alt_grammar": self.alt_grammar_text,
             "input": self.input,
             "script": self.script.iter().map(|c| c.to_json()).collect::<Vec<_>>(),
             "personality": self.personality,
@@ -114,6 +121,7 @@ impl Workload {
         Some(Workload {
             grammar_text: v.get("grammar")?.as_str()?.to_string(),
             grammar_ast: None,
+            alt_grammar_text: v.get("alt_grammar").and_then(|x| x.as_str()).map(|x| x.to_string()),
             input: v.get("input")?.as_str()?.to_string(),
             script: v
                 .get("script")?
@@ -222,13 +230,27 @@ fn reference_run_inner(rules: &[OptimizedRule], rule: &str, input: &str) -> Opti
 /// References for every `Run` command of the script, in order. None if the grammar does not
 /// load or a reference parse is too expensive.
 pub fn references(w: &Workload) -> Option<Vec<RunRef>> {
-    let (_, rules) = pest_meta::parse_and_optimize(&w.grammar_text).ok()?;
+    let (_, main_rules) = pest_meta::parse_and_optimize(&w.grammar_text).ok()?;
+    let alt_rules = match &w.alt_grammar_text {
+        Some(t) => Some(pest_meta::parse_and_optimize(t).ok()?.1),
+        None => None,
+    };
+    let mut rules = &main_rules;
     let mut input = w.input.clone();
     let mut out = vec![];
     for c in &w.script {
         match c {
             Cmd::LoadInput(s) => input = s.clone(),
-            Cmd::Run { rule, .. } => out.push(reference_run(&rules, rule, &input)?),
+            Cmd::LoadGrammar(alt) => {
+                rules = if *alt { alt_rules.as_ref()? } else { &main_rules };
+            }
+            Cmd::Run { rule, .. } => {
+                // an undefined start rule makes the VM panic ("undefined rule"): not generated
+                if !rules.iter().any(|r| r.name == *rule) && !gen::BUILTINS.contains(&rule.as_str()) {
+                    return None;
+                }
+                out.push(reference_run(rules, rule, &input)?)
+            }
             _ => {}
         }
     }
@@ -274,6 +296,8 @@ fn err_name(e: &DebuggerError) -> String {
 }
 
 struct Ctl {
+    main: String,
+    alt: Option<String>,
     ctx: DebuggerContext,
     rx: Option<Receiver<DebuggerEvent>>,
     final_seen: bool,
@@ -360,6 +384,15 @@ impl Ctl {
             Cmd::LoadInput(s) => {
                 rt::mark("load_input");
                 self.ctx.load_input_direct(s.clone());
+            }
+            Cmd::LoadGrammar(alt) => {
+                let text = if *alt { self.alt.clone() } else { Some(self.main.clone()) };
+                if let Some(t) = text {
+                    rt::mark(format!("load_grammar {}", if *alt { "alt" } else { "main" }));
+                    self.ctx
+                        .load_grammar_direct("g", &t)
+                        .expect("harness: grammar was validated before the world started");
+                }
             }
             Cmd::Run { rule, cap, drain } => {
                 // the property's precondition: every delivered event has been received
@@ -452,6 +485,8 @@ impl Ctl {
 
 pub fn controller(w: &Workload) {
     let mut ctl = Ctl {
+        main: w.grammar_text.clone(),
+        alt: w.alt_grammar_text.clone(),
         ctx: DebuggerContext::default(),
         rx: None,
         final_seen: false,
@@ -646,10 +681,15 @@ pub fn check_history(
         .iter()
         .filter_map(|c| if let Cmd::Run { cap, .. } = c { Some(*cap) } else { None })
         .collect();
-    let all_rules: Vec<String> = match pest_meta::parse_and_optimize(&w.grammar_text) {
-        Ok((_, rules)) => rules.iter().map(|r| r.name.clone()).collect(),
-        Err(_) => vec![],
+    let rule_names = |t: &str| -> Vec<String> {
+        match pest_meta::parse_and_optimize(t) {
+            Ok((_, rules)) => rules.iter().map(|r| r.name.clone()).collect(),
+            Err(_) => vec![],
+        }
     };
+    let main_rules: Vec<String> = rule_names(&w.grammar_text);
+    let alt_rules: Vec<String> = w.alt_grammar_text.as_deref().map(rule_names).unwrap_or_default();
+    let mut all_rules: Vec<String> = main_rules.clone();
     // Breakpoint-set history as the CONTROLLER sees it: state i may have been in force at any
     // time from the beginning of the call that created it to the end of the call that replaced
     // it. The model does not look at how (or how often) the implementation locks the set.
@@ -804,6 +844,8 @@ pub fn check_history(
                         } else if res != "ok" {
                             flag!(viol("run-failed", format!("first run() returned {res}"), seq));
                         }
+                    } else if let Some(which) = m.strip_prefix("load_grammar ") {
+                        all_rules = if which == "alt" { alt_rules.clone() } else { main_rules.clone() };
                     } else if m == "cont_call" {
                         in_cont = true;
                         cont_pending_load = None;
@@ -1293,6 +1335,25 @@ pub fn gen_workload(rng: &mut Rng, stats: &mut GenStats) -> Option<(Workload, Ve
         }
     };
     script.push(run_cmd(rng, &start));
+    // a second grammar for LoadGrammar (restarting personalities only)
+    let alt_text: Option<String> = if personality != "P" && rng.chance(1, 6) {
+        let g2 = gen::gen_grammar(
+            rng,
+            &gen::GenCfg {
+                free_stack_leaves: false,
+                ..gen::GenCfg::default()
+            },
+        );
+        let t = g2.to_pest();
+        if pest_meta::parse_and_optimize(&t).is_ok() {
+            Some(t)
+        } else {
+            None
+        }
+    } else {
+        None
+    };
+    let mut cur_alt = false;
     match personality {
         "P" => {
             if rng.chance(1, 3) {
@@ -1341,7 +1402,17 @@ pub fn gen_workload(rng: &mut Rng, stats: &mut GenStats) -> Option<(Workload, Ve
                 if rng.chance(1, 6) {
                     script.push(Cmd::LoadInput(mk_input(rng)));
                 }
-                let rule = if rng.chance(1, 4) {
+                // occasionally switch to the other grammar between runs
+                if alt_text.is_some() && rng.chance(1, 2) {
+                    cur_alt = !cur_alt;
+                    script.push(Cmd::LoadGrammar(cur_alt));
+                }
+                let rule = if cur_alt {
+                    "r0".to_string()
+                } else if rng.chance(1, 25) {
+                    // a built-in as start rule
+                    ["ANY", "EOI", "SOI", "ASCII_DIGIT", "NEWLINE"][rng.below(5)].to_string()
+                } else if rng.chance(1, 4) {
                     start_candidates[rng.below(start_candidates.len())].clone()
                 } else {
                     start.clone()
@@ -1368,6 +1439,7 @@ pub fn gen_workload(rng: &mut Rng, stats: &mut GenStats) -> Option<(Workload, Ve
     let w = Workload {
         grammar_text: text,
         grammar_ast: ast,
+        alt_grammar_text: alt_text,
         input,
         script,
         personality,
